@@ -9,9 +9,12 @@ package dicescript
 
 import (
 	"math"
+	"unsafe"
 
 	"golang.org/x/exp/rand"
 )
+
+var _ = unsafe.Pointer(nil)
 
 var _ = math.MaxInt64
 
@@ -110,9 +113,12 @@ func allocated(p any) bool { panic("spec only") }
 
 // forallStr(p): p holds for every string (written `forallkey k: P` in clauses).  mapHas(m, k): k is a key of the
 // modelled map m.  rangeSeen(k): key k was already visited by the innermost range loop over a modelled map.
-func forallStr(p func(k string) bool) bool { panic("spec only") }
+func forallStr(p func(k string) bool) bool            { panic("spec only") }
 func mapHas[K comparable, V any](m map[K]V, k K) bool { panic("spec only") }
-func rangeSeen(k string) bool { panic("spec only") }
+func rangeSeen(k string) bool                         { panic("spec only") }
+
+// sameMap(a, b): a and b are the same map object (Go cannot compare maps).
+func sameMap[K comparable, V any](a, b map[K]V) bool { panic("spec only") }
 
 // ghostAssert(b) raises a proof obligation from ghost code.
 func ghostAssert(b bool) {}
@@ -1802,4 +1808,243 @@ lemma faces_equally_likely_bwd ALL [C05]
 (assert (= C (* n (div C n))))
 (assert (not (and (>= (+ (* k n) f) 0) (< (+ (* k n) f) C) (= (mod (+ (* k n) f) n) f) (= (div (+ (* k n) f) n) k))))
 (check-sat)
+@*/
+
+// ---- ValueMap (C12, sequential half) ---------------------------------------------------------------------------
+//
+// ValueMap is sync.Map specialised to string keys and *VMValue values.  dsvc verifies its single-threaded behaviour:
+// mutexes are no-ops, atomic cells are plain cells, compare-and-swap is never interleaved (so every CAS retry loop
+// runs at most once: `peel`).  The map type of the read / dirty tables is modelled precisely (`mapmodel`).
+//
+// An entry's slot p is nil (deleted), expungedValueMap (deleted and absent from dirty) or the address of a cell
+// holding the value.
+
+// vmSlotLive(p): the slot holds a value.  vmSlotVal(p): that value.
+func vmSlotLive(p unsafe.Pointer) bool    { return p != nil && p != expungedValueMap }
+func vmSlotVal(p unsafe.Pointer) *VMValue { return *(**VMValue)(p) }
+
+// Representation.  R = the read table, A = its amended flag, D = the dirty table.
+func vmR(m *ValueMap) map[string]*entryValueMap {
+	r, _ := m.read.Load().(readOnlyValueMap)
+	return r.m
+}
+func vmA(m *ValueMap) bool {
+	r, _ := m.read.Load().(readOnlyValueMap)
+	return r.amended
+}
+
+// vmHas(m, k) / vmGet(m, k): the abstract content of m — the ordinary string-keyed map it stands for.
+func vmHas(m *ValueMap, k string) bool {
+	if mapHas(vmR(m), k) {
+		return vmSlotLive(vmR(m)[k].p)
+	}
+	if vmA(m) && mapHas(m.dirty, k) {
+		return vmSlotLive(m.dirty[k].p)
+	}
+	return false
+}
+func vmGet(m *ValueMap, k string) *VMValue {
+	if mapHas(vmR(m), k) {
+		return vmSlotVal(vmR(m)[k].p)
+	}
+	return vmSlotVal(m.dirty[k].p)
+}
+
+// vmWF(m): the representation invariant of sync.Map's two-table design.
+//
+//	amended => dirty exists;
+//	a read entry is expunged  => dirty exists and lacks the key;
+//	a read entry not expunged and dirty exists => dirty holds the same entry under the key;
+//	dirty entries are never expunged; unless amended every dirty key is a read key;
+//	tables are injective (one entry object per key) and consistent with each other.
+func vmWF(m *ValueMap) bool {
+	return implies(vmA(m), m.dirty != nil) && vmWFRead(m) && vmWFDirty(m) && vmWFInj(m)
+}
+func vmWFRead(m *ValueMap) bool {
+	return forallStr(func(k string) bool {
+		return implies(mapHas(vmR(m), k), vmR(m)[k] != nil && allocated(vmR(m)[k]) &&
+			implies(vmR(m)[k].p == expungedValueMap, m.dirty != nil && !mapHas(m.dirty, k)) &&
+			implies(vmR(m)[k].p != expungedValueMap && m.dirty != nil, mapHas(m.dirty, k) && m.dirty[k] == vmR(m)[k]))
+	})
+}
+func vmWFDirty(m *ValueMap) bool {
+	return forallStr(func(k string) bool {
+		return implies(mapHas(m.dirty, k), m.dirty[k] != nil && allocated(m.dirty[k]) && m.dirty[k].p != expungedValueMap &&
+			implies(!vmA(m), mapHas(vmR(m), k)))
+	})
+}
+func vmWFInj(m *ValueMap) bool {
+	return forallStr(func(k1 string) bool {
+		return forallStr(func(k2 string) bool {
+			return implies(mapHas(vmR(m), k1) && mapHas(vmR(m), k2) && vmR(m)[k1] == vmR(m)[k2], k1 == k2) &&
+				implies(mapHas(m.dirty, k1) && mapHas(m.dirty, k2) && m.dirty[k1] == m.dirty[k2], k1 == k2) &&
+				implies(mapHas(vmR(m), k1) && mapHas(m.dirty, k2) && vmR(m)[k1] == m.dirty[k2], k1 == k2)
+		})
+	})
+}
+
+/*@
+mapmodel map[string]*entryValueMap
+
+func newEntryValueMap
+  props C12
+  assigns nothing
+  ensures result != nil && isFresh(result) && vmSlotLive(result.p) && vmSlotVal(result.p) == i
+
+func (*entryValueMap).load
+  props C12
+  assigns nothing
+  ensures ok == vmSlotLive(e.p)
+  ensures ok ==> value == vmSlotVal(e.p)
+  ensures !ok ==> value == nil
+
+func (*entryValueMap).tryStore
+  props C12
+  requires i != nil
+  assigns entryValueMap.p@e
+  ensures result == (old(e.p) != expungedValueMap)
+  ensures result ==> e.p == unsafe.Pointer(i)
+  ensures !result ==> e.p == old(e.p)
+  loop 1
+    peel
+
+func (*entryValueMap).unexpungeLocked
+  props C12
+  assigns entryValueMap.p@e
+  ensures wasExpunged == (old(e.p) == expungedValueMap)
+  ensures wasExpunged ==> e.p == nil
+  ensures !wasExpunged ==> e.p == old(e.p)
+
+func (*entryValueMap).storeLocked
+  props C12
+  requires i != nil
+  assigns entryValueMap.p@e
+  ensures e.p == unsafe.Pointer(i)
+
+func (*entryValueMap).tryLoadOrStore
+  props C12
+  assigns entryValueMap.p@e
+  ensures old(e.p) == expungedValueMap ==> !ok && !loaded && actual == nil && e.p == old(e.p)
+  ensures vmSlotLive(old(e.p)) ==> ok && loaded && actual == vmSlotVal(old(e.p)) && e.p == old(e.p)
+  ensures old(e.p) == nil ==> ok && !loaded && actual == i && vmSlotLive(e.p) && vmSlotVal(e.p) == i
+  loop 1
+    peel
+
+func (*entryValueMap).delete
+  props C12
+  assigns entryValueMap.p@e
+  ensures ok == vmSlotLive(old(e.p))
+  ensures ok ==> value == vmSlotVal(old(e.p)) && e.p == nil
+  ensures !ok ==> value == nil && e.p == old(e.p)
+  loop 1
+    peel
+
+func (*entryValueMap).tryExpungeLocked
+  props C12
+  assigns entryValueMap.p@e
+  ensures isExpunged == (old(e.p) == nil || old(e.p) == expungedValueMap)
+  ensures old(e.p) == nil ==> e.p == expungedValueMap
+  ensures old(e.p) != nil ==> e.p == old(e.p)
+  loop 1
+    peel
+
+func (*ValueMap).missLocked
+  props C12
+  requires vmWF(m) && m.dirty != nil && vmA(m)
+  assigns ValueMap.read ValueMap.dirty ValueMap.misses
+  ensures vmWF(m)
+  ensures (sameMap(vmR(m), old(m.dirty)) && m.dirty == nil && !vmA(m)) || (sameMap(vmR(m), old(vmR(m))) && sameMap(m.dirty, old(m.dirty)) && vmA(m))
+  ensures forallkey k: vmHas(m, k) == old(vmHas(m, k)) && (vmHas(m, k) ==> vmGet(m, k) == old(vmGet(m, k)))
+
+func (*ValueMap).Load
+  props C12
+  requires vmWF(m)
+  assigns ValueMap.read ValueMap.dirty ValueMap.misses
+  ensures vmWF(m)
+  ensures ok == old(vmHas(m, key)) && (ok ==> value == old(vmGet(m, key))) && (!ok ==> value == nil)
+  ensures forallkey k: vmHas(m, k) == old(vmHas(m, k)) && (vmHas(m, k) ==> vmGet(m, k) == old(vmGet(m, k)))
+
+// dirtyLocked builds the dirty table from the live read entries (deleted ones become expunged) when there is none.
+func (*ValueMap).dirtyLocked
+  props C12
+  requires vmWF(m) && !vmA(m)
+  assigns ValueMap.dirty entryValueMap.p map.map[string]*entryValueMap
+  ensures vmWF(m) && m.dirty != nil && vmA(m) == old(vmA(m)) && sameMap(vmR(m), old(vmR(m)))
+  ensures old(m.dirty) != nil ==> sameMap(m.dirty, old(m.dirty))
+  ensures forallkey k: vmHas(m, k) == old(vmHas(m, k)) && (vmHas(m, k) ==> vmGet(m, k) == old(vmGet(m, k)))
+  ensures forallkey k: mapHas(vmR(m), k) == old(mapHas(vmR(m), k))
+  loop 1
+    invariant m != nil && m.dirty != nil && isFresh(m.dirty) && sameMap(read.m, vmR(m)) && !vmA(m) && sameMap(vmR(m), old(vmR(m)))
+    invariant forallkey k: mapHas(read.m, k) == old(mapHas(vmR(m), k))
+    invariant forallkey k: mapHas(read.m, k) ==> read.m[k] == old(vmR(m)[k])
+    invariant forallkey k: mapHas(read.m, k) ==> read.m[k] != nil && allocated(read.m[k])
+    invariant forallkey k: mapHas(read.m, k) && !rangeSeen(k) ==> read.m[k].p == old(vmR(m)[k].p)
+    invariant forallkey k: mapHas(read.m, k) && rangeSeen(k) ==> (old(vmSlotLive(vmR(m)[k].p)) ==> read.m[k].p == old(vmR(m)[k].p) && mapHas(m.dirty, k) && m.dirty[k] == read.m[k]) && (!old(vmSlotLive(vmR(m)[k].p)) ==> read.m[k].p == expungedValueMap && !mapHas(m.dirty, k))
+    invariant forallkey k: mapHas(m.dirty, k) ==> mapHas(read.m, k) && rangeSeen(k) && m.dirty[k] == read.m[k]
+    invariant forallkey k1: forallkey k2: mapHas(read.m, k1) && mapHas(read.m, k2) && read.m[k1] == read.m[k2] ==> k1 == k2
+
+// The public operations against the abstract map: Store sets one key and leaves the others alone, Load reads, ...
+func (*ValueMap).Store
+  props C12
+  requires vmWF(m)
+  assigns ValueMap.read ValueMap.dirty ValueMap.misses entryValueMap.p map.map[string]*entryValueMap
+  ensures vmWF(m)
+  ensures vmHas(m, key) && vmGet(m, key) == value
+  ensures forallkey k: k != key ==> vmHas(m, k) == old(vmHas(m, k)) && (vmHas(m, k) ==> vmGet(m, k) == old(vmGet(m, k)))
+
+func (*ValueMap).LoadOrStore
+  props C12
+  requires vmWF(m)
+  assigns ValueMap.read ValueMap.dirty ValueMap.misses entryValueMap.p map.map[string]*entryValueMap
+  ensures vmWF(m)
+  ensures loaded == old(vmHas(m, key))
+  ensures loaded ==> actual == old(vmGet(m, key))
+  ensures !loaded ==> actual == value
+  ensures vmHas(m, key) && vmGet(m, key) == actual
+  ensures forallkey k: k != key ==> vmHas(m, k) == old(vmHas(m, k)) && (vmHas(m, k) ==> vmGet(m, k) == old(vmGet(m, k)))
+
+func (*ValueMap).LoadAndDelete
+  props C12
+  requires vmWF(m)
+  assigns ValueMap.read ValueMap.dirty ValueMap.misses entryValueMap.p map.map[string]*entryValueMap
+  ensures vmWF(m)
+  ensures loaded == old(vmHas(m, key)) && (loaded ==> value == old(vmGet(m, key))) && (!loaded ==> value == nil)
+  ensures !vmHas(m, key)
+  ensures forallkey k: k != key ==> vmHas(m, k) == old(vmHas(m, k)) && (vmHas(m, k) ==> vmGet(m, k) == old(vmGet(m, k)))
+
+func (*ValueMap).Delete
+  props C12
+  requires vmWF(m)
+  assigns ValueMap.read ValueMap.dirty ValueMap.misses entryValueMap.p map.map[string]*entryValueMap
+  ensures vmWF(m)
+  ensures !vmHas(m, key)
+  ensures forallkey k: k != key ==> vmHas(m, k) == old(vmHas(m, k)) && (vmHas(m, k) ==> vmGet(m, k) == old(vmGet(m, k)))
+
+func (*ValueMap).Clear
+  props C12
+  requires vmWF(m)
+  assigns ValueMap.read ValueMap.dirty ValueMap.misses map.map[string]*entryValueMap
+  ensures vmWF(m)
+  ensures forallkey k: !vmHas(m, k)
+
+func (*ValueMap).MustLoad
+  props C12
+  requires vmWF(m)
+  assigns ValueMap.read ValueMap.dirty ValueMap.misses
+  ensures vmWF(m)
+  ensures old(vmHas(m, key)) ==> result == old(vmGet(m, key))
+  ensures !old(vmHas(m, key)) ==> result == nil
+  ensures forallkey k: vmHas(m, k) == old(vmHas(m, k)) && (vmHas(m, k) ==> vmGet(m, k) == old(vmGet(m, k)))
+
+// Length: the number of live keys.  Cardinality is not axiomatised; what is proved is the part a caller can observe
+// without counting: the result is not negative and it is zero exactly when the map is empty (dict truthiness).
+func (*ValueMap).Length
+  props C12 C02
+  requires vmWF(m)
+  assigns nothing
+  ensures result >= 0
+  ensures (result == 0) == (forallkey k: !vmHas(m, k))
+  loop 1
+    invariant n >= 0 && (n == 0) == (forallkey k: rangeSeen(k) && mapHas(entries, k) ==> !vmSlotLive(entries[k].p))
+  ghost at loop 1 begin: ghostAssume(n < 1<<62, "a counter of the keys visited so far does not overflow (a Go map holds fewer than 2^62 entries)")
 @*/
